@@ -543,6 +543,7 @@ impl World {
         self.inflight -= 1;
         self.held += 1;
         let bad_during = self.bad_recycles - bad_before;
+        let pings_so_far = self.pings.clone();
         let Some(c) = self.conn(id) else {
             self.harness_error("unknown_connection", format!("get() returned connection with db {id}"));
             return "ok_unknown".into();
@@ -552,7 +553,23 @@ impl World {
         let class = match state {
             CState::Fresh => {
                 c.state = CState::Held;
+                // a connection that is handed out for the first time has not been recycled; if it
+                // was pinged all the same (a recycle that reconnected in place), the value must
+                // still be one that was never used on this pool
+                let dup: Option<String> = c
+                    .log
+                    .iter()
+                    .filter(|cmd| cmd.first().map(|s| s.as_str()) == Some("PING"))
+                    .filter_map(|cmd| cmd.get(1).cloned())
+                    .find(|v| pings_so_far.iter().filter(|p| *p == v).count() > 1);
                 c.log.clear();
+                if let Some(v) = dup {
+                    let all = pings_so_far.clone();
+                    self.violate(
+                        CL_FRESH,
+                        format!("conn#{id} handed out to c{ci} after PING {v:?}, a value already used by an earlier PING on this pool (all PING values so far: {all:?})"),
+                    );
+                }
                 if bad_during > 0 {
                     self.probe("discarded_and_replaced");
                     if bad_during > 1 {
